@@ -13,7 +13,7 @@ def gen(ctx):
 def run(ctx, proofs):
     r = propeng.run(ctx, proofs, [("-", "-"), ("-", "2")], check_vals=False, check_degs=True,
                     n_quick=700, n_thorough=12000, props=("C07", "C20"))
-    propeng.verdict(ctx, proofs, r, kinds=("degree",), known_classes=("ctl-merge",),
+    propeng.verdict(ctx, proofs, r, kinds=("degree",), known_classes=(),
                     extra_cov={"regenerated": "coq/gen/DegreeTable.v: 20 infix x 16 degree pairs, 20 x 256 range pairs, 3 prefix operators, "
                                               "inf, is_constant/linear/quadratic, order; re-derived by executing the current degree_meta.rs"})
     ctx.assumptions.append("polynomial degree is judged by finite differences along lines in signal space (the observable the property names); "
